@@ -458,6 +458,36 @@ def rule_uncg_traj(ctx, py):
     ctx.floor(R, 7)
 
 
+def rule_dist(ctx, py):
+    """C16.DIST -- the distance of a coarse edge is the distance between the centroids of its two groups, whatever it is: the
+    value stored into `edge.distance` is sqrt(sum over the three coordinates of (p_i[c] - p_j[c])**2), unconditionally"""
+    R = "C16.DIST"
+    from .. import pysym
+    f = py.fn("coarsegrain.coarsegrain_grid")
+    loops = [n for n in ast.walk(f) if isinstance(n, ast.For) and any(
+        isinstance(x, ast.Assign) and pyfe.src(x.targets[0]).endswith(".distance") for x in ast.walk(n))]
+    ctx.need(len(loops) == 1 and isinstance(loops[0].target, ast.Name), R, "coarsegrain_grid: the loop that sets the edge distances "
+             "is not found")
+    e = pyfe.src(loops[0].target)          # (inlining suffix dropped)
+    try:
+        st = pysym.exec_stores(loops[0].body)
+    except pysym.NotModelled as ex:
+        ctx.error(R, "coarsegrain_grid: %s" % ex)
+    st = [x for x in st if x[1] == "%s.distance" % e]
+    ctx.need(len(st) == 1, R, "coarsegrain_grid: %d stores to %s.distance" % (len(st), e))
+    node, tgt, val, conds = st[0]
+    ctx.check(not conds, R, node, f._qual, "%s.distance set for every edge" % e, "unconditional", "the distance is set only under %s" %
+              [pyfe.src(c) for c, _ in conds])
+    got = pysym.rat(val)
+    P_ = lambda t: ast.parse(t, mode="eval").body
+    terms = " + ".join("(node_pos[%s.i][%d] - node_pos[%s.j][%d]) ** 2" % (e, c, e, c) for c in range(3))
+    want = [pysym.rat(P_("(%s) ** (1 / 2)" % terms)), pysym.rat(P_("(%s) ** 0.5" % terms))]
+    ctx.check(any(got.equals(w) for w in want), R, node, f._qual, "%s.distance = %s" % (e, pyfe.src(val)[:80]), "Euclidean distance "
+              "between the two centroids", "the stored distance is `%s`, not the distance between the centroids of the two groups "
+              "(clamped, rescaled or conditional): interface rates of irregular groups are wrong" % pyfe.src(val)[:140])
+    ctx.floor(R, 2)
+
+
 def run(ctx):
     py = ctx.py
     rule_pos_order(ctx, py)
@@ -467,6 +497,7 @@ def run(ctx):
     rule_kind(ctx, py)
     rule_clamp(ctx, py)
     rule_edge(ctx, py)
+    rule_dist(ctx, py)
     rule_uncg(ctx, py)
     rule_cgscript(ctx, py)
     rule_uncg_traj(ctx, py)
@@ -474,6 +505,12 @@ def run(ctx):
     # and _setup_grid is converted to the one engine units system (shared with C04.BOUNDARY)
     from . import c04
     c04.rule_boundary(ctx, py, ctx.cx, "C16.BOUNDARY")
+    # ... and the graph engine addresses every table (environments, volumes, D, k) with the index kind it is laid out in, as the
+    # grid engine does: a neighbour *slot* used where the neighbour *cell* is meant picks another cell's environment
+    from ..core import borrow
+    from . import c01
+    from .. import idx as idxmod
+    borrow(ctx, "C16", c01.rule_layout, ctx.cx, idxmod.Idx(ctx.cx), py)
     from .. import lints
     lints.run(ctx, "C16", ctx.py, ["simulate", "coarsegrain"], truth_floor=3)
     ctx.assume("conservation totals, centroid distances and identity-map equivalence are value-level and not decided")
